@@ -1,15 +1,20 @@
 SPECIFICATION MCSpec
 CONSTANTS
   Cats = {"NP", "S/NP"}
-  Words = {"w", "v"}
+  Words = {"w", "vw", "wxyzw"}
   MaxTrees = 2
   Depth = 1
   CatCut = 2
   WordCut = 2
+  AfixCut = 2
+  SpellOf <- MCSpellOf
 INVARIANT FilesAreTheCounts
 INVARIANT OneSamplePerKeptTree
 INVARIANT ReservedWordsAlwaysWritten
 INVARIANT SeenRulesOverTargetsOnly
+INVARIANT AfixReservedAlwaysWritten
+INVARIANT FourAffixesPerLeaf
+INVARIANT ShortWordsFeedTheMarkers
 INVARIANT BankIsTheTrees
 INVARIANT Emit
 PROPERTY CountsOnlyGrow
